@@ -384,6 +384,11 @@ impl Prop for C08 {
             if u.text.contains("reuse ") || u.text.contains("reuse\n") {
                 continue;
             }
+            // default field values (`a: u32 = 1`, unstable) make rustfmt copy the struct verbatim: same reason
+            let flat = lex::code_tokens(&u.text).join(" ");
+            if flat.contains("struct S { a : u32 = ") {
+                continue;
+            }
             // quick: only the first two contexts of each kind (ctx_limit applies to deviated forms only)
             if !thorough {
                 let ctx = u.extra["ctx"].as_str().unwrap_or("");
